@@ -46,6 +46,14 @@ inductive Op where
   | tryPush (ov x : Nat)            -- inplace_vector: `try_push_back(const&)`, `(&&)`, `try_emplace_back`
   | unchecked (ov x : Nat)          -- inplace_vector: `unchecked_push_back(const&)`, `(&&)`, `unchecked_emplace_back`
   | dump
+  -- the argument is an element of the vector itself (`Arg.elem i`, Model.lean): [sequence.reqmts] requires these to work
+  | pushA (ov i : Nat)              -- ov 0 `push_back(v[i])`, 2 `emplace_back(v[i])`
+  | pushTop (ov : Nat)              -- ov 0 `push_back(back())` / `stack::push(top())`, 2 `emplace_back(back())` / `stack::emplace(top())`
+  | insertA (ov pos i : Nat)        -- ov 0 `insert(pos, v[i])` (the `T const&` overload), 2 `emplace(pos, v[i])`
+  | insertFillA (pos n i : Nat)     -- `insert(pos, n, v[i])`
+  | resizeValA (n i : Nat)          -- `resize(n, v[i])`
+  | tryPushA (ov i : Nat)           -- inplace_vector: ov 0 `try_push_back(c[i])`, 2 `try_emplace_back(c[i])`
+  | uncheckedA (ov i : Nat)         -- inplace_vector: ov 0 `unchecked_push_back(c[i])`, 2 `unchecked_emplace_back(c[i])`
   deriving Repr, Inhabited
 
 structure Sys where
@@ -66,6 +74,8 @@ def modPred (m r : Nat) : Nat → Bool := fun v => v % m == r
 def supports : Ty → Op → Bool
   | .sv, .tryPush .. => false
   | .sv, .unchecked .. => false
+  | .sv, .tryPushA .. => false
+  | .sv, .uncheckedA .. => false
   | .sv, _ => true
   | .stk, .push .. => true
   | .stk, .pop => true
@@ -76,9 +86,12 @@ def supports : Ty → Op → Bool
   | .stk, .swap _ => true
   | .stk, .cmp _ => true
   | .stk, .dump => true
+  | .stk, .pushTop _ => true
   | .stk, _ => false
   | .ipv, .tryPush .. => true
   | .ipv, .unchecked .. => true
+  | .ipv, .tryPushA .. => true
+  | .ipv, .uncheckedA .. => true
   | .ipv, .pop => true
   | .ipv, .clear => true
   | .ipv, .copyCtor _ => true
@@ -117,9 +130,18 @@ def step1 (cap : Nat) (kind : Kind) (op : Op) (d : V) : Except Err (V × Out) :=
   | .ctorN n => do let d1 ← ctorN cap n; .ok (d1, .unit)
   | .ctorNVal n x => do let d1 ← ctorNVal cap n x; .ok (d1, .unit)
   | .ctorRange xs => do let d1 ← ctorRange cap xs; .ok (d1, .unit)
-  | .eraseVal x => do let r ← eraseIf cap kind d (fun v => v == x); .ok (r.1, .count r.2)
+  | .eraseVal x => do let r ← eraseIf cap kind d (fun v => eqOf kind v x); .ok (r.1, .count r.2)
   | .eraseIf m r => do let e ← eraseIf cap kind d (modPred m r); .ok (e.1, .count e.2)
   | .dump => .ok (d, .unit)
+  | .pushA ov i =>
+    if ov = 2 then do let d1 ← emplaceBackA cap d (.elem i); .ok (d1, .unit)
+    else do let d1 ← pushBackA cap d (.elem i); .ok (d1, .unit)
+  | .pushTop ov => do let d1 ← pushTop cap d (ov == 2); .ok (d1, .unit)
+  | .insertA ov pos i =>
+    if ov = 0 then do let r ← insertCrefA cap d pos (.elem i); .ok (r.1, .it r.2)
+    else do let r ← emplaceA cap d pos (.elem i); .ok (r.1, .it r.2)
+  | .insertFillA pos n i => do let r ← insertFillA cap d pos n (.elem i); .ok (r.1, .it r.2)
+  | .resizeValA n i => do let d1 ← resizeValA cap d n (.elem i); .ok (d1, .unit)
   | _ => .error (.pre "not a single-object member")
 
 /-- operations on object `k` alone, for `inplace_vector` -/
@@ -127,6 +149,8 @@ def step1Ipv (cap : Nat) (op : Op) (d : V) : Except Err (V × Out) :=
   match op with
   | .tryPush _ x => do let r ← ipvTry cap d x; .ok (r.1, .ptr r.2)
   | .unchecked _ x => do let r ← ipvUnchecked cap d x; .ok (r.1, .ref r.2)
+  | .tryPushA _ i => do let r ← ipvTryA cap d (.elem i); .ok (r.1, .ptr r.2)
+  | .uncheckedA _ i => do let r ← ipvUncheckedA cap d (.elem i); .ok (r.1, .ref r.2)
   | .pop => do let d1 ← ipvPop cap d; .ok (d1, .unit)
   | .clear => do let d1 ← ipvClear cap d; .ok (d1, .unit)
   | .dump => .ok (d, .unit)
@@ -177,7 +201,7 @@ def step (s : Sys) (k : Nat) (op : Op) : Except Err (Sys × Out) :=
   | .cmp j => do
     let o ← rd s.objs j
     let d ← rd s.objs k
-    let bs ← relOps d o
+    let bs ← relOps (ltOf s.kind) (eqOf s.kind) d o
     .ok (s, .rels bs)
   | op => do
     let d ← rd s.objs k
@@ -210,6 +234,13 @@ def valid1 (cap : Nat) (op : Op) (d : V) : Bool :=
   | .tryPush _ _ => true
   | .unchecked _ _ => d.length < cap
   | .dump => true
+  | .pushA _ i => d.length < cap && i < d.length
+  | .pushTop _ => d.length < cap && 0 < d.length
+  | .insertA _ pos i => d.length < cap && pos ≤ d.length && i < d.length
+  | .insertFillA pos n i => pos ≤ d.length && d.length + n ≤ cap && i < d.length
+  | .resizeValA n i => n ≤ cap && i < d.length
+  | .tryPushA _ i => i < d.length
+  | .uncheckedA _ i => d.length < cap && i < d.length
   | _ => false
 
 def isBinary : Op → Option Nat
